@@ -5,6 +5,7 @@ import (
 	"bytes"
 	"errors"
 	"fmt"
+	"io"
 	"runtime"
 	"sort"
 	"testing"
@@ -106,7 +107,7 @@ func c12Prop(st *CaseStats, fam int) func(t *rapid.T) {
 			drops[i] = GenDrops(t, ins[i].Exp.N, fmt.Sprintf("i%d", i))
 			desc += fmt.Sprintf(" IN%d=%s drop=%s", i, ins[i].Desc, bmString(drops[i]))
 		}
-		bufSize := rapid.SampledFrom([]int{1, 2, 7, 64, 4096, 0}).Draw(t, "bufSize")
+		bufSize := rapid.SampledFrom([]int{1, 2, 7, 44, 64, 1024, 4095, 4096, 0}).Draw(t, "bufSize")
 		desc += fmt.Sprintf(" mergeBuf=%d", bufSize)
 		inner := 0
 		exhaustive := true
@@ -146,6 +147,19 @@ func c12Prop(st *CaseStats, fam int) func(t *rapid.T) {
 					t.Fatalf("%s:\n  Segment.WriteTo of IN%d reported success (n=%d) although one Write call of the writer failed at byte %d of %d", desc, i, n, k, len(good))
 				}
 				// the same, the failing call reporting the full byte count together with its error
+				if k%4 == 1 || k >= len(good)-64 {
+					for _, fw := range []io.Writer{&flushyFailOnce{failOnce{k: k}}, &flushyFailAfter{failAfter{k: k}}} {
+						err = safely("Segment.WriteTo(failing writer with a Flush method)", func() error {
+							var e error
+							n, e = in.Seg.WriteTo(fw, nil)
+							return e
+						})
+						inner++
+						if err == nil {
+							t.Fatalf("%s:\n  Segment.WriteTo of IN%d reported success (n=%d) although the writer (%T, which has a Flush method) failed at byte %d of %d", desc, i, n, fw, k, len(good))
+						}
+					}
+				}
 				if k%4 != 0 && k < len(good)-64 {
 					continue
 				}
@@ -173,6 +187,26 @@ func c12Prop(st *CaseStats, fam int) func(t *rapid.T) {
 		if gn != int64(len(good)) {
 			t.Fatalf("%s: fault-free merge returned %d, wrote %d", desc, gn, len(good))
 		}
+		// the fault-free file is a complete one: it loads, holds the survivors and its CRC covers it
+		{
+			gs, err := LoadMem(good)
+			if err != nil {
+				t.Fatalf("%s:\n  the file of the fault-free merge (buffer %d) does not load: %v", desc, bufSize, err)
+			}
+			want := 0
+			for i, in := range ins {
+				want += in.Exp.N
+				if drops[i] != nil {
+					want -= int(drops[i].GetCardinality())
+				}
+			}
+			if int(gs.Count()) != want {
+				t.Fatalf("%s:\n  the fault-free merge holds %d documents, expected %d", desc, gs.Count(), want)
+			}
+			if err := checkFile("fault-free Merger.WriteTo", good, gs, 1025); err != nil {
+				t.Fatalf("%s:\n  %v", desc, err)
+			}
+		}
 		offs, ex := offsetsToTry(good, bufSize, len(good))
 		exhaustive = exhaustive && ex
 		for _, k := range offs {
@@ -199,6 +233,20 @@ func c12Prop(st *CaseStats, fam int) func(t *rapid.T) {
 			inner++
 			if err == nil {
 				t.Fatalf("%s:\n  Merger.WriteTo reported success (n=%d) although one Write call of the writer failed at byte %d of %d", desc, n, k, len(good))
+			}
+			if k%4 == 1 || k >= len(good)-64 {
+				// destinations that also have a Flush method (which reports no error of its own)
+				for _, fw := range []io.Writer{&flushyFailOnce{failOnce{k: k}}, &flushyFailAfter{failAfter{k: k}}} {
+					err = safely("Merger.WriteTo(failing writer with a Flush method)", func() error {
+						var e error
+						n, e = ice.Merge(segs, drops, bufSize).WriteTo(fw, nil)
+						return e
+					})
+					inner++
+					if err == nil {
+						t.Fatalf("%s:\n  Merger.WriteTo reported success (n=%d) although the writer (%T, which has a Flush method) failed at byte %d of %d", desc, n, fw, k, len(good))
+					}
+				}
 			}
 			if k%4 != 0 && k < len(good)-64 {
 				continue
